@@ -61,6 +61,12 @@ func c10Src(items []c10Item) string {
 			sb.WriteString(it.Text)
 		case "super":
 			sb.WriteString("{{ block.Super }}")
+		case "superup":
+			sb.WriteString("{{ block.Super|upper }}")
+		case "superwith":
+			sb.WriteString("{% with sv=block.Super %}({{ sv }}){% endwith %}")
+		case "superif":
+			sb.WriteString("{% if block.Super %}Y{% else %}N{% endif %}")
 		case "block":
 			sb.WriteString("{% block " + it.Name + " %}" + c10Src(it.Body) + "{% endblock %}")
 		case "if":
@@ -126,6 +132,29 @@ func c10Ref(chain []c10Tpl, j int) string {
 				if name != "" && pos > 0 {
 					ls := levelsOf(name)
 					render(defs[ls[pos-1]][name], name, pos-1)
+				}
+			case "superup", "superwith", "superif":
+				// block.Super is a value: the parent's rendering can be filtered, bound and tested
+				saved := sb.String()
+				sb.Reset()
+				if name != "" && pos > 0 {
+					ls := levelsOf(name)
+					render(defs[ls[pos-1]][name], name, pos-1)
+				}
+				parent := sb.String()
+				sb.Reset()
+				sb.WriteString(saved)
+				switch it.Kind {
+				case "superup":
+					sb.WriteString(strings.ToUpper(parent))
+				case "superwith":
+					sb.WriteString("(" + parent + ")")
+				default:
+					if parent != "" {
+						sb.WriteString("Y")
+					} else {
+						sb.WriteString("N")
+					}
 				}
 			case "if":
 				if it.Cond {
@@ -230,7 +259,7 @@ func checkC10(c any, r *Rec) error {
 		walk = func(items []c10Item, inBlock bool) {
 			for _, it := range items {
 				switch it.Kind {
-				case "super":
+				case "super", "superup", "superwith", "superif":
 					st.supers++
 				case "block":
 					if inBlock {
@@ -277,6 +306,22 @@ type c10Gen struct {
 	bigLoops int
 	loops    []string // loop variables of the lexically enclosing for items (same template)
 	nloops   int
+	encl     []int // creation numbers of the lexically enclosing blocks
+}
+
+func (g *c10Gen) isKnown(name string) bool {
+	for _, k := range g.known {
+		if k == name {
+			return true
+		}
+	}
+	return false
+}
+
+func c10BlockNo(name string) int {
+	n := 0
+	fmt.Sscanf(name, "b%d", &n)
+	return n
 }
 
 func (g *c10Gen) body(lvl, depth int, inBlock bool) []c10Item {
@@ -293,7 +338,7 @@ func (g *c10Gen) body(lvl, depth int, inBlock bool) []c10Item {
 			out = append(out, c10Item{Kind: "text", Text: fmt.Sprintf("t%d%c", lvl, 'a'+rune(drawInt(g.t, 0, 5, "tn")))})
 		case "super":
 			if inBlock {
-				out = append(out, c10Item{Kind: "super"})
+				out = append(out, c10Item{Kind: pickW(g.t, "superkind", []string{"super", "superup", "superwith", "superif"}, []int{6, 1, 1, 1})})
 			}
 		case "block":
 			if depth <= 0 {
@@ -303,6 +348,20 @@ func (g *c10Gen) body(lvl, depth int, inBlock bool) []c10Item {
 			// top level of a child: usually override something the ancestors define
 			if lvl > 0 && !inBlock && len(g.known) > 0 && drawInt(g.t, 0, 4, "override") > 0 {
 				name = pick(g.t, "known", g.known)
+			} else if lvl > 0 && inBlock && len(g.known) > 0 && drawInt(g.t, 0, 2, "nestedoverride") == 0 {
+				// re-define an ancestor's block INSIDE the override of another block. A block may only
+				// contain blocks created after it (by number), so that no two blocks ever contain each
+				// other, at any level of the chain.
+				var later []string
+				for _, k := range g.known {
+					if c10BlockNo(k) > g.encl[len(g.encl)-1] {
+						later = append(later, k)
+					}
+				}
+				if len(later) == 0 {
+					continue
+				}
+				name = pick(g.t, "knownnested", later)
 			} else {
 				g.fresh++
 				name = fmt.Sprintf("b%d", g.fresh)
@@ -311,7 +370,18 @@ func (g *c10Gen) body(lvl, depth int, inBlock bool) []c10Item {
 				continue
 			}
 			g.used[name] = true
-			out = append(out, c10Item{Kind: "block", Name: name, Body: g.body(lvl, depth-1, true)})
+			g.encl = append(g.encl, c10BlockNo(name))
+			savedLoops := g.loops
+			if inBlock && g.isKnown(name) {
+				// a re-definition of an ancestor's block is also rendered where the ancestors place that
+				// block (possibly reached through block.Super, outside the loops written around it
+				// here): it does not refer to those loops
+				g.loops = nil
+			}
+			body := g.body(lvl, depth-1, true)
+			g.loops = savedLoops
+			g.encl = g.encl[:len(g.encl)-1]
+			out = append(out, c10Item{Kind: "block", Name: name, Body: body})
 		case "if":
 			if depth > 0 {
 				out = append(out, c10Item{Kind: "if", Cond: drawBool(g.t, "cond"), Body: g.body(lvl, depth-1, inBlock)})
@@ -351,6 +421,7 @@ func genC10(t *rapid.T) *c10Case {
 	for lvl := 0; lvl < n; lvl++ {
 		g.used = map[string]bool{}
 		g.loops = nil
+		g.encl = nil
 		tp := c10Tpl{File: dirs[lvl] + fmt.Sprintf("l%d.tpl", lvl)}
 		if sameBase {
 			tp.File = dirs[lvl] + "t.tpl"
@@ -415,7 +486,7 @@ func relPath(from, to string) string {
 
 var _ = register(&propSpec{
 	ID:    "C10.chain",
-	Rule:  "inheritance chains base <- l1 <- ... (1-5 levels, files in different directories, parents named rooted or relatively with ..) in an in-memory loader; per level random block sets: override (with 0-n block.Super, also twice, inside loops, before and after nested blocks), inherit, add new blocks, nest fresh blocks inside overrides, text outside blocks; base blocks nested in blocks, in if-branches (true/false) and in for-loops. Every level is rendered (twice) and compared with a reference resolution; the base is rendered before and after its children; then 0-6 further renders of any level in any order on a fresh set, fetched with FromCache or FromFile. Loops iterate over distinct letters and definitions print the current element of a loop that encloses them in their own template (so a definition rendered through Super must show the current iteration). Nested blocks inside overrides carry fresh names (blocks containing each other have no defined rendering). Non-trivial: >= 2 levels with an override and (Super or nested block or a skipped level); distinct by sources.",
+	Rule:  "inheritance chains base <- l1 <- ... (1-5 levels, files in different directories, parents named rooted or relatively with ..) in an in-memory loader; per level random block sets: override (with 0-n block.Super - printed, filtered, bound by with, tested by if -, also twice, inside loops, before and after nested blocks), inherit, add new blocks, nest fresh blocks inside overrides, text outside blocks; base blocks nested in blocks, in if-branches (true/false) and in for-loops. Every level is rendered (twice) and compared with a reference resolution; the base is rendered before and after its children; then 0-6 further renders of any level in any order on a fresh set, fetched with FromCache or FromFile. Loops iterate over distinct letters and definitions print the current element of a loop that encloses them in their own template (so a definition rendered through Super must show the current iteration). Blocks nested inside overrides carry fresh names or re-define an ancestor's block that was created later than the enclosing one (so blocks never contain each other - that has no defined rendering - while a block an ancestor defines at top level may be re-defined inside another block's override). Non-trivial: >= 2 levels with an override and (Super or nested block or a skipped level); distinct by sources.",
 	Gen:   func(t *rapid.T) any { return genC10(t) },
 	New:   func() any { return &c10Case{} },
 	Check: checkC10,
